@@ -1945,7 +1945,18 @@ impl<T: PackedInt> IntVec<T> {
         let value = u64::from_le_bytes(buffer);
         
         // Use BMI2 BEXTR for optimal bit extraction when available
-        Ok(BitOps::extract_bits(value, bit_in_byte as u8, bits))
+        let mut result = BitOps::extract_bits(value, bit_in_byte as u8, bits);
+
+        // A field of 58..63 bits that does not start on a byte boundary reaches into a
+        // ninth byte; the writers store those bits, so read them back as well
+        let bits_in_window = 64 - bit_in_byte;
+        if (bits as usize) > bits_in_window && byte_offset + 8 < data.len() {
+            let high = (data[byte_offset + 8] as u64) << bits_in_window;
+            let mask = if bits >= 64 { u64::MAX } else { (1u64 << bits) - 1 };
+            result |= high & mask;
+        }
+
+        Ok(result)
     }
 
     // Decompression methods
